@@ -42,6 +42,13 @@ static std::string probe(const std::string& name, const std::vector<std::string>
         return std::to_string((int)direction_from_string(arg(0)));
     if (name == "model_type")
         return std::to_string((int)model_type_from_string(arg(0)));
+    // the overloads taking a C string, documented to accept a null pointer (= empty name)
+    if (name == "model_type_cstr")
+        return std::to_string((int)model_type_from_string(arg(0) == "<null>" ? (const char*)nullptr : arg(0).c_str()));
+    if (name == "kernel_type_cstr")
+        return std::to_string((int)kernel_type_from_string(arg(0) == "<null>" ? (const char*)nullptr : arg(0).c_str()));
+    if (name == "direction_cstr")
+        return std::to_string((int)direction_from_string(arg(0) == "<null>" ? (const char*)nullptr : arg(0).c_str()));
     if (name == "weather_type")
         return std::to_string((int)weather_type_from_string(arg(0)));
     if (name == "treatment_app")
